@@ -2,4 +2,6 @@
 //! Every property has a module with a `record` driver (impl -> spec: ndjson trace for TLC) and,
 //! where the spec generates behaviours, a `replay` driver (spec -> impl).
 pub mod util;
+pub mod enc;
 pub mod c17;
+pub mod c14;
